@@ -4,7 +4,7 @@
    [sources] (length rows + 1) indexed in range, and the invariant of the labels map (every value
    is the number of an existing row). *)
 From Coq Require Import Lia.
-From DepsDev Require Import Lib.Base Pypi.PyStr Pypi.PyStr_proofs Resolve.Graph Resolve.SchemaResolve.
+From DepsDev Require Import Lib.Base Pypi.PyStr Pypi.PyStr_proofs Resolve.Graph Gen.SchemaTables Resolve.SchemaResolve.
 
 Local Open Scope nat_scope.
 
@@ -86,10 +86,22 @@ Proof.
   - destruct (IH H). auto.
 Qed.
 
+(* Obligations on the tables read from the Go source (Gen/SchemaTables.v): they are re-checked
+   against the regenerated file on every run. *)
 Lemma art_patterns_nonempty p : In p art_patterns -> 0 < length p.
 Proof.
-  unfold art_patterns. cbn [In]. intros [H|[H|[H|[H|[]]]]]; subst; cbn; lia.
+  assert (H : forallb (fun p => Nat.ltb 0 (length p)) art_patterns = true) by reflexivity.
+  intros Hin. apply Nat.ltb_lt. exact (proj1 (forallb_forall _ _) H p Hin).
 Qed.
+
+Lemma error_top_skip_ok : (0 <= schema_error_top_skip <= Z.of_nat (length s_error_top))%Z.
+Proof. split; apply Z.leb_le; reflexivity. Qed.
+Lemma error_mid_skip_ok : (0 <= schema_error_mid_skip <= Z.of_nat (length s_error_mid))%Z.
+Proof. split; apply Z.leb_le; reflexivity. Qed.
+Lemma colon_skip_ok : (0 <= schema_colon_skip <= Z.of_nat (length s_colon))%Z.
+Proof. split; apply Z.leb_le; reflexivity. Qed.
+Lemma bar_skip_ok : (0 <= schema_bar_skip <= 1)%Z.
+Proof. split; apply Z.leb_le; reflexivity. Qed.
 
 Lemma replace_art_ok n s : length s < n -> exists r, replace_art n s = Ok r.
 Proof.
@@ -127,26 +139,26 @@ Qed.
 Lemma cut_error_ok tl : exists p, cut_error tl = Ok p.
 Proof.
   unfold cut_error. destruct (index_sub s_error_mid tl) as [i|] eqn:E; [|eauto].
-  apply index_sub_bound in E. cbn [s_error_mid length] in E.
-  destruct (from_z_ok tl (Z.of_nat i + 8)) as (e & E1 & _); try lia. rewrite E1. cbn [bind].
+  apply index_sub_bound in E. pose proof error_mid_skip_ok as Hk.
+  destruct (from_z_ok tl (Z.of_nat i + schema_error_mid_skip)) as (e & E1 & _); try lia. rewrite E1. cbn [bind].
   destruct (upto_z_ok tl (Z.of_nat i)) as (t & E2); try lia. rewrite E2. cbn [bind]. eauto.
 Qed.
 
 Lemma cut_label_ok tl : exists p, cut_label trim tl = Ok p.
 Proof.
   unfold cut_label. destruct (index_sub s_colon tl) as [i|] eqn:E; [|eauto].
-  apply index_sub_bound in E. cbn [s_colon length] in E.
+  apply index_sub_bound in E. pose proof colon_skip_ok as Hk.
   destruct (upto_z_ok tl (Z.of_nat i)) as (l & E1); try lia. rewrite E1. cbn [bind].
-  destruct (from_z_ok tl (Z.of_nat i + 2)) as (t & E2 & _); try lia. rewrite E2. cbn [bind]. eauto.
+  destruct (from_z_ok tl (Z.of_nat i + schema_colon_skip)) as (t & E2 & _); try lia. rewrite E2. cbn [bind]. eauto.
 Qed.
 
 Lemma cut_deptype_safe tl : safe (cut_deptype trim parse_deptype tl).
 Proof.
   unfold cut_deptype. destruct (index_byte c_bar tl) as [i|] eqn:E; [|exact I].
-  apply index_byte_lt in E.
+  apply index_byte_lt in E. pose proof bar_skip_ok as Hk.
   destruct (upto_z_ok tl (Z.of_nat i)) as (pre & E1); try lia. rewrite E1. cbn [bind].
   destruct (parse_deptype pre); [|exact I].
-  destruct (from_z_ok tl (Z.of_nat i + 1)) as (t & E2 & _); try lia. rewrite E2. exact I.
+  destruct (from_z_ok tl (Z.of_nat i + schema_bar_skip)) as (t & E2 & _); try lia. rewrite E2. exact I.
 Qed.
 
 Lemma dollar_not_at req c0 :
@@ -226,8 +238,8 @@ Proof.
   induction lines as [|line rest IH]; intros s; cbn [parse_lines]; [exact I|].
   destruct (_ || _); [apply IH|].
   destruct (has_prefix s_error_top (trim line)) eqn:Ep.
-  - apply has_prefix_length in Ep. cbn [s_error_top length] in Ep.
-    destruct (from_z_ok (trim line) 6) as (e & E1 & _); try lia. rewrite E1. cbn [bind]. apply IH.
+  - apply has_prefix_length in Ep. pose proof error_top_skip_ok as Hk.
+    destruct (from_z_ok (trim line) schema_error_top_skip) as (e & E1 & _); try lia. rewrite E1. cbn [bind]. apply IH.
   - apply safe_bind; [apply parse_row_safe|]. intros p _. apply IH.
 Qed.
 
@@ -238,7 +250,7 @@ Proof.
   - inversion H. subst. exact Hs.
   - destruct (_ || _); [eapply IH; eauto|].
     destruct (has_prefix s_error_top (trim line)).
-    + destruct (from_z (trim line) 6); try discriminate. cbn [bind] in H.
+    + destruct (from_z (trim line) schema_error_top_skip); try discriminate. cbn [bind] in H.
       eapply IH; [exact H|]. exact Hs.
     + destruct (parse_row trim parse_deptype line) as [p| | |]; try discriminate. cbn [bind] in H.
       eapply IH; [exact H|]. unfold schema_ok in *. cbn [s_rows s_labels].
@@ -249,34 +261,81 @@ Proof.
 Qed.
 
 (* ------------------------------------------------------------------ validation *)
-Lemma validate_safe labels rows : forall prev, safe (validate labels prev rows).
+Lemma idx_nth_error {A} (l : list A) i x : idx l i = Ok x -> nth_error l i = Some x.
 Proof.
-  induction rows as [|r rest IH]; intros prev; cbn [validate]; [exact I|].
-  destruct (match prev with None => _ | Some p => _ end); [exact I|].
-  destruct (_ && _); [exact I|]. apply IH.
+  revert i. induction l as [|a l IH]; intros [|i]; cbn; intros H; try discriminate.
+  - inversion H. reflexivity.
+  - auto.
 Qed.
 
-Definition slack (prev : option nat) : nat := match prev with None => 0 | Some d => d + 1 end.
+(* [todo] is the part of [rows] from number i on *)
+Definition suffix_at (rows : list row) (i : nat) (todo : list row) : Prop :=
+  forall j, nth_error rows (i + j) = nth_error todo j.
 
-Lemma validate_depth labels rows : forall prev,
-  validate labels prev rows = Ok tt ->
-  forall i r, nth_error rows i = Some r -> r_depth r <= i + slack prev.
+Lemma suffix_at_next rows i r rest : suffix_at rows i (r :: rest) -> suffix_at rows (S i) rest.
+Proof. intros H j. specialize (H (S j)). cbn [nth_error] in H. rewrite <- H. f_equal. lia. Qed.
+
+Lemma suffix_at_lt rows i r rest : suffix_at rows i (r :: rest) -> i < length rows.
 Proof.
-  induction rows as [|r0 rest IH]; intros prev H i r Hi.
-  - destruct i; discriminate.
-  - cbn [validate] in H.
-    assert (H0 : r_depth r0 <= slack prev /\ validate labels (Some (r_depth r0)) rest = Ok tt).
-    { destruct prev as [p|]; cbn [slack].
-      - destruct (Nat.eqb (r_depth r0) 0); [discriminate|].
-        destruct (Nat.ltb (p + 1) (r_depth r0)) eqn:E; [discriminate|].
-        apply Nat.ltb_ge in E. split; [lia|].
-        destruct (_ && _); [discriminate|exact H].
-      - destruct (Nat.ltb 0 (r_depth r0)) eqn:E; [discriminate|].
-        apply Nat.ltb_ge in E. split; [lia|].
-        destruct (_ && _); [discriminate|exact H]. }
-    destruct H0 as [Hd Hrest]. destruct i as [|i]; cbn [nth_error] in Hi.
-    + inversion Hi. subst. lia.
-    + specialize (IH _ Hrest i r Hi). cbn [slack] in IH. lia.
+  intros H. specialize (H 0). cbn [nth_error] in H. rewrite Nat.add_0_r in H.
+  apply nth_error_Some. congruence.
+Qed.
+
+Lemma validate_from_safe labels rows todo : forall i,
+  suffix_at rows i todo -> safe (validate_from labels rows i todo).
+Proof.
+  induction todo as [|r rest IH]; intros i Hs; cbn [validate_from]; [exact I|].
+  destruct (_ && _); [exact I|]. destruct (_ && _); [exact I|].
+  pose proof (suffix_at_lt _ _ _ _ Hs) as Hlt.
+  apply safe_bind.
+  - destruct (Nat.ltb 0 i); [|exact I].
+    destruct (idx_ok rows (i - 1)) as (p & Ep); [lia|]. rewrite Ep. exact I.
+  - intros sk _. destruct sk; [exact I|]. destruct (_ && _); [exact I|].
+    apply IH. eapply suffix_at_next; eauto.
+Qed.
+
+Lemma validate_from_depth labels rows todo : forall i,
+  suffix_at rows i todo ->
+  (0 < i -> exists p, nth_error rows (i - 1) = Some p /\ r_depth p <= i - 1) ->
+  validate_from labels rows i todo = Ok tt ->
+  forall j r, nth_error todo j = Some r -> r_depth r <= i + j.
+Proof.
+  induction todo as [|r0 rest IH]; intros i Hs Hprev H j r Hj.
+  - destruct j; discriminate.
+  - cbn [validate_from] in H.
+    destruct (Nat.eqb i 0 && Nat.ltb 0 (r_depth r0)) eqn:E1; [discriminate|].
+    destruct (Nat.ltb 0 i && Nat.eqb (r_depth r0) 0) eqn:E2; [discriminate|].
+    assert (H0 : r_depth r0 <= i /\ validate_from labels rows (S i) rest = Ok tt).
+    { destruct i as [|i].
+      - cbn [Nat.eqb andb] in E1. apply Nat.ltb_ge in E1.
+        change (Nat.ltb 0 0) with false in H. cbv iota in H. cbn [bind] in H.
+        split; [lia|]. match type of H with (if ?c then _ else _) = _ => destruct c end; [discriminate|exact H].
+      - destruct Hprev as (p & Ep & Hp); [lia|].
+        change (Nat.ltb 0 (S i)) with true in H. cbv iota in H.
+        destruct (idx rows (S i - 1)) as [p'| | |] eqn:Ei; try discriminate. cbn [bind] in H.
+        apply idx_nth_error in Ei. rewrite Ep in Ei. inversion Ei. subst p'.
+        destruct (Nat.ltb (r_depth p + 1) (r_depth r0)) eqn:E3; [discriminate|].
+        apply Nat.ltb_ge in E3. split; [lia|]. match type of H with (if ?c then _ else _) = _ => destruct c end; [discriminate|exact H]. }
+    destruct H0 as [Hd Hrest]. destruct j as [|j]; cbn [nth_error] in Hj.
+    + inversion Hj. subst. lia.
+    + assert (Hn : r_depth r <= S i + j).
+      { apply (IH (S i)); auto.
+        - eapply suffix_at_next; eauto.
+        - intros _. exists r0. split; [|lia].
+          specialize (Hs 0). cbn [nth_error] in Hs. rewrite Nat.add_0_r in Hs.
+          replace (S i - 1) with i by lia. exact Hs. }
+      lia.
+Qed.
+
+Lemma validate_safe labels rows : safe (validate labels rows).
+Proof. apply validate_from_safe. intros j. reflexivity. Qed.
+
+Lemma validate_depth labels rows :
+  validate labels rows = Ok tt -> forall i r, nth_error rows i = Some r -> r_depth r <= i.
+Proof.
+  intros H i r Hi. apply (validate_from_depth labels rows rows 0); auto.
+  - intros j. reflexivity.
+  - lia.
 Qed.
 
 (* ------------------------------------------------------------------ the two loops of ParseResolve *)
@@ -359,9 +418,9 @@ Proof.
   unfold parse_resolve. intros H.
   destruct (parse_lines trim parse_deptype (split_on c_nl text) empty_schema) as [s0| | |] eqn:E;
     try discriminate. cbn [bind] in H.
-  destruct (validate (s_labels s0) None (s_rows s0)) as [[]| | |] eqn:Ev; try discriminate.
+  destruct (validate (s_labels s0) (s_rows s0)) as [[]| | |] eqn:Ev; try discriminate.
   cbn [bind] in H. inversion H. subst s0. split.
-  - intros i r Hi. pose proof (validate_depth _ _ _ Ev i r Hi) as Hb. cbn [slack] in Hb.
+  - intros i r Hi. pose proof (validate_depth _ _ Ev i r Hi) as Hb.
     assert (i < length (s_rows s)) by (apply nth_error_Some; congruence). lia.
   - intros k v Hk. eapply lfind_bound; [|exact Hk].
     apply (parse_lines_labels _ _ _ E). constructor.
@@ -375,7 +434,7 @@ Proof.
   - unfold parse_resolve in Hs.
     destruct (parse_lines trim parse_deptype (split_on c_nl text) empty_schema) as [s0| | |] eqn:E;
       try discriminate. cbn [bind] in Hs.
-    destruct (validate (s_labels s0) None (s_rows s0)) as [[]| | |]; try discriminate.
+    destruct (validate (s_labels s0) (s_rows s0)) as [[]| | |]; try discriminate.
     cbn [bind] in Hs. inversion Hs. subst s0.
     apply (parse_lines_labels _ _ _ E). constructor.
   - intros i r Hi. apply (Hd i r Hi).
